@@ -253,6 +253,7 @@ def S4(inp, chunks, event, lose=False, observer=False):
         # emulate the effect of a successful load (the decode of an abstract image is outside this obligation)
         so.set_log(fol, [(so.NOOP, 4, 1), (so.NOOP, 5, 1)])
         put(fol, 'raftLastApplied', 5)
+        return True
     setattr(fol, so.P + 'loadDumpFile', spy_load)
     k = inp.choice('after', chunks + 1) + 1 if event != 'none' else None
 
@@ -427,9 +428,10 @@ def S6(inp):
 
 
 @obligation('RI', props=('C01', 'C09', 'C04', 'C02'), quick=[dict(n=2), dict(n=3)], thorough=[dict(n=2), dict(n=3), dict(n=4), dict(n=5)], stubs=_STUBS,
-            bounds='follower in any well-formed state with n<=4 entries; the last chunk of a snapshot taken at any index d >= the follower commit index (terms symbolic), leader commit any value >= d; earlier chunks present or missing')
+            bounds='follower in any well-formed state with n<=4 entries; the last chunk of a snapshot taken at any index d in 2..6, above or below the follower commit and applied index (terms symbolic), leader commit any value >= d; earlier chunks present or missing')
 def RI(inp, n):
-    """snapshot installation on a follower: only a complete transfer is installed; then the log is exactly the two snapshot
+    """snapshot installation on a follower: only a complete transfer of a snapshot above the commit index is installed (a stale one
+    changes nothing and is answered with commit+1); then the log is exactly the two snapshot
     entries, the applied index is the snapshot position, the user state is the snapshot's, indices do not move backwards and the
     commit index stays within the log; an incomplete transfer (first chunk missing) installs nothing and acknowledges nothing."""
     install_memory()
@@ -442,7 +444,7 @@ def RI(inp, n):
     dt0, dt1 = inp.int('dt0', 0, 5), inp.int('dt1', 0, 5)
     mterm = inp.int('mterm', 0, 5)
     mci = inp.int('mci', 0, 9)
-    inp.assume(And(d >= p.commit, dt0 <= dt1, dt1 <= mterm, mterm >= p.term, mci >= d))
+    inp.assume(And(dt0 <= dt1, dt1 <= mterm, mterm >= p.term, mci >= d))      # d may lie below what the node has applied (stale nextIndex on the leader)
     xs = inp.int('xs', 0, 5)
     image = Token(([{'x': xs, 'items': [xs]}, {'_ReplList__data': [xs]}, {'_ReplCounter__counter': xs}], (so.NOOP, d, dt1), (so.NOOP, d - 1, dt0),
                    set([Node('a'), Node('b'), Node('c')])))
@@ -464,7 +466,7 @@ def RI(inp, n):
     rec_cov, rec_above = Rec('covered'), Rec('above')
     wc = get(o, 'commandsWaitingCommit')
     cov_idx = d - inp.choice('cb_below', 2)
-    inp.assume(cov_idx > p.applied)
+    inp.assume(And(cov_idx > p.applied, d > p.commit) if inp.flag('with_callback') else True)
     wc[cov_idx].append((inp.int('cb_term', 0, 5), rec_cov))
     wc[d + 1].append((mterm, rec_above))
     msg = {'type': 'append_entries', 'term': mterm, 'commit_index': mci, 'serialized': (Blob(), False, True)}
@@ -475,13 +477,20 @@ def RI(inp, n):
     # a position covered by a snapshot was committed and applied: its outcome is unknown to this node, never "not applied"
     cl['no_failure_reported_for_positions_the_snapshot_covers'] = all(err == 0 for _, err in rec_cov.calls) and len(rec_cov.calls) <= 1
     cl['callbacks_above_the_snapshot_untouched'] = rec_above.calls == []
+    stale = d <= p.commit          # everything the snapshot covers is committed here already (the leader acted on an outdated reply)
     if started:
-        cl['log_is_the_two_snapshot_entries'] = len(q.log) == 2 and And(Eq(q.log[0][1], d - 1), Eq(q.log[1][1], d), Eq(q.log[0][2], dt0), Eq(q.log[1][2], dt1))
-        cl['applied_index_is_snapshot_position'] = Eq(q.applied, d)
+        fresh = Not(stale)
+        unchanged = And(so.logs_equal(p.log, q.log) if len(p.log) == len(q.log) else False, Eq(q.applied, p.applied), Eq(q.commit, p.commit), Eq(o.x, -1))
+        cl['fresh_log_is_the_two_snapshot_entries'] = Implies(fresh, len(q.log) == 2 and And(Eq(q.log[0][1], d - 1), Eq(q.log[1][1], d), Eq(q.log[0][2], dt0), Eq(q.log[1][2], dt1)))
+        cl['fresh_applied_index_is_snapshot_position'] = Implies(fresh, Eq(q.applied, d))
+        cl['fresh_user_state_is_the_snapshot'] = Implies(fresh, Eq(o.x, xs))
+        cl['fresh_acknowledged_with_next_index'] = Implies(fresh, len(acks) == 1 and Eq(acks[0]['next_node_idx'], d + 1))
+        # a stale snapshot changes nothing: the committed prefix is kept (C04), the state still is the execution of the applied prefix (C01)
+        cl['stale_snapshot_changes_nothing'] = Implies(stale, unchanged)
+        cl['stale_snapshot_acknowledged_at_commit'] = Implies(stale, len(acks) == 1 and Eq(acks[0]['next_node_idx'], p.commit + 1))
+        cl['stale_snapshot_renews_stored_snapshot'] = Implies(stale, get(o, 'forceLogCompaction') is True)
         cl['indices_do_not_move_backwards'] = And(q.applied >= p.applied, q.commit >= p.commit)
-        cl['commit_within_log'] = And(q.commit <= d, q.commit >= q.applied)
-        cl['user_state_is_the_snapshot'] = Eq(o.x, xs)
-        cl['acknowledged_with_next_index'] = len(acks) == 1 and bool(Eq(acks[0]['next_node_idx'], d + 1))
+        cl['commit_within_log'] = And(q.commit <= q.log[-1][1], q.commit >= q.applied)
     else:
         cl['incomplete_transfer_installs_nothing'] = And(so.logs_equal(p.log, q.log) if len(p.log) == len(q.log) else False, Eq(q.applied, p.applied),
                                                          Eq(q.commit, p.commit), len(acks) == 0, Eq(o.x, -1))
